@@ -992,6 +992,11 @@ pub mod crossbeam_channel {
     }
     pub fn bounded<T>(cap: usize) -> (Sender<T>, Receiver<T>) {
         assert!(cap > 0, "zero-capacity (rendezvous) channels are not modelled by the shim");
+        // the access-count channel has a fixed capacity of 10 in the code; scenarios may shrink it
+        let cap = match (cap, world::cfg().access_channel_cap) {
+            (10, Some(c)) => c,
+            _ => cap,
+        };
         make(Some(cap))
     }
     pub fn unbounded<T>() -> (Sender<T>, Receiver<T>) {
